@@ -46,7 +46,26 @@ fn command_parsing(ident: &Ident, command: &Command) -> TokenStream {
     let variant_fqn = quote! { #ident::#variant_name };
 
     let rhs = if command.args.is_empty() && command.subcommand.is_none() {
-        quote! { #variant_fqn, }
+        // command has no arguments, so anything that is given to it is unexpected
+        quote! {
+            {
+                for arg in command.args().args() {
+                    match arg {
+                        _cli::arguments::Arg::Value(value) => {
+                            return Err(_cli::service::ParseError::UnexpectedArgument { value })
+                        }
+                        _cli::arguments::Arg::LongOption(name) => {
+                            return Err(_cli::service::ParseError::UnexpectedLongOption { name })
+                        }
+                        _cli::arguments::Arg::ShortOption(name) => {
+                            return Err(_cli::service::ParseError::UnexpectedShortOption { name })
+                        }
+                        _cli::arguments::Arg::DoubleDash => {}
+                    }
+                }
+                #variant_fqn
+            }
+        }
     } else {
         let (parsing, arguments) = create_arg_parsing(command);
         if command.named_args {
